@@ -320,4 +320,84 @@ RandArgStmt(u) ==       \* one statement with a candidate argument of its kind, 
       a == RandomElement(Cands(kind)) IN ArgStmt(site[1], site[2], a)
 PoolKw == Keywords \cup {ExtKw}
 RandPool(u) == [j \in 1..6 |-> IF j <= 3 THEN Mk(RandomElement(PoolKw), 7, "module") ELSE RandArgStmt(j)]
+
+(* ---- large multiplicities (machine-integer boundaries) ----
+   The tree carries ONE representative child; "expand" tells the renderer how many copies of the child at
+   that path the text must contain in total (copies directly after it; identifier-like arguments get a
+   distinct suffix).  The verdict is read off the same table cell (CellVerdict), and YangStmtMC checks
+   on real expanded trees that this is what Valid says (BigConsistent).                              *)
+CellVerdict(P, C, cnt) ==
+  IF C = ExtKw THEN "accept"
+  ELSE IF C \notin Keywords THEN (IF cnt = 0 THEN "accept" ELSE "reject")
+  ELSE IF CellUnjudged(P, C, cnt) THEN "unjudged"
+  ELSE IF C \notin DOMAIN Sub(P) THEN (IF cnt = 0 THEN "accept" ELSE "reject")
+  ELSE IF cnt >= Sub(P)[C][1] /\ cnt <= Sub(P)[C][2] THEN "accept" ELSE "reject"
+CellKind(P, C, cnt) ==
+  IF C \notin Keywords THEN "unknown-keyword" ELSE IF C \notin DOMAIN Sub(P) THEN "not-allowed"
+  ELSE IF cnt < Sub(P)[C][1] THEN "missing" ELSE "too-many"
+CellClass(P, C) ==
+  IF C = ExtKw THEN "ext" ELSE IF C \notin Keywords THEN "unknown" ELSE IF C \notin DOMAIN Sub(P) THEN "na"
+  ELSE IF Sub(P)[C] = <<0, 1>> THEN "01" ELSE IF Sub(P)[C] = <<1, 1>> THEN "11" ELSE IF Sub(P)[C] = <<0, N>> THEN "0n" ELSE "1n"
+Classes == {"ext", "unknown", "na", "01", "11", "0n", "1n"}
+FirstK(S, k) == LET q == SetToSeq(S) IN {q[i] : i \in 1..(IF Len(q) < k THEN Len(q) ELSE k)}
+\* a sample of k cells of every cardinality class of parent P
+\* (copies of a revision would also break the date order: a different rule, so revision is left out)
+BigKw == ExtOrKw \ {"revision"}
+BigCells(P, k) == UNION {FirstK({C \in BigKw : CellClass(P, C) = cl}, k) : cl \in Classes}
+Renamed(C) == ArgKind(C, "module") = "identifier" \/ C = "enum"
+RepIndex(X, C, P) == CHOOSE j \in 1..Len(X.subs) : X.subs[j] = Mk(C, 1, P) /\ \A k \in 1..(j-1) : X.subs[k] # Mk(C, 1, P)
+XPath(t, X) == IF HostKw(X.kw) = "" THEN << >> ELSE CHOOSE q \in FindPath(t, X, << >>) : TRUE
+\* statements that can be repeated any number of times in a clean template once their names differ
+Repeatable == {"leaf", "leaf-list", "container", "anyxml", "choice", "case", "must", "pattern", "typedef", "grouping", "feature",
+               "identity", "extension", "enum", "bit", "notification", "rpc", ExtKw}
+BigExpand(P, C, T) ==        \* <<tree, expand directives, path of P's statement>>
+  LET X == PStmt(P, C, 1)
+      t == CardTree(P, C, 1)
+      xp == XPath(t, X)
+      j == RepIndex(X, C, P) IN
+  << t, << [path |-> Append(xp, j), n |-> T - (Count(X, C) - 1), rename |-> Renamed(C)] >>, xp >>
+BigExpect(P, C, T, xp) ==
+  LET cv == CellVerdict(P, C, T) IN
+  [verdict |-> cv, locate |-> cv = "reject",
+   bad |-> IF cv = "reject" THEN {F(CellKind(P, C, T), C, xp, {xp}, TRUE)} ELSE {}]
+BigClean(P, C, T) == CardClean(P, C, 1) /\ C \in Repeatable /\ T <= 600
+\* data-definition aggregate: a leaves and b containers next to what the template has; every cell is 0..n
+AggExpand(P, T) ==
+  LET X0 == PStmt(P, "leaf", 1)
+      X == St(X0.kw, X0.arg, Append(X0.subs, Mk("container", 2, P)))
+      t == Complete(Embed(X))
+      xp == XPath(t, X)
+      base == Cardinality({i \in 1..Len(X.subs) : X.subs[i].kw \in DD}) - 2
+      a == (T - base) \div 2 IN
+  <<t, <<[path |-> Append(xp, RepIndex(X, "leaf", P)), n |-> a, rename |-> TRUE],
+         [path |-> Append(xp, Len(X.subs)), n |-> T - base - a, rename |-> TRUE]>>, xp>>
+\* the expansion the renderer performs, as a spec operator (used by YangStmtMC on moderate counts)
+Replicate(X, j, n, rename) ==
+  LET c == X.subs[j]
+      copy(i) == IF rename /\ i > 1 THEN St(c.kw, c.arg \o "x" \o ToString(i), c.subs) ELSE c IN
+  St(X.kw, X.arg, SubSeq(X.subs, 1, j - 1) \o [i \in 1..n |-> copy(i)] \o SubSeq(X.subs, j + 1, Len(X.subs)))
+
+(* ---- histories: the same verdicts whatever was parsed before with the same interners ----
+   A history is a short sequence of trees parsed one after the other with ONE shared pair of interners
+   (parse.ParseWithInterners, as compile.ParseModules does).  Nothing is prescribed here but the trees:
+   each event is judged by Expect(tree) of that tree alone (YangStmtTrace).                            *)
+BadArgs(kind) == {a \in Cands(kind) : ArgVerdict(kind, a) = "invalid"}
+OkArgs(kind) == {a \in Cands(kind) : ArgVerdict(kind, a) = "valid"}
+ArgHistories(kind, s, kb, ko) ==
+  LET B == FirstK(BadArgs(kind), kb)  O == FirstK(OkArgs(kind), ko)
+      T(a) == ArgTree(s[1], s[2], a) IN
+  {<<T(b), T(b)>> : b \in B}
+  \cup UNION {{<<T(o), T(b)>>, <<T(b), T(o)>>, <<T(b), T(o), T(b)>>, <<T(o), T(b), T(o)>>} : o \in O, b \in B}
+\* the same argument text under statements of different kinds: valid for one, invalid for the other
+CrossArgs == {"true", "1", "current", "user", "add", "2020-01-01", "a", "unbounded", "1..2", "/tc", "p:a", "18"}
+OneSite(kind) == CHOOSE s \in SitesOf(kind) : TRUE
+CrossTriples == {x \in JudgedKinds \X JudgedKinds \X CrossArgs :
+                   x[1] # x[2] /\ ArgVerdict(x[1], x[3]) = "valid" /\ ArgVerdict(x[2], x[3]) = "invalid"}
+CrossHistories(k) ==
+  UNION {LET s1 == OneSite(x[1])  s2 == OneSite(x[2])  a == x[3] IN
+         {<<ArgTree(s1[1], s1[2], a), ArgTree(s2[1], s2[2], a)>>, <<ArgTree(s2[1], s2[2], a), ArgTree(s1[1], s1[2], a)>>}
+         : x \in FirstK(CrossTriples, k)}
+CardHistories(k) ==
+  UNION {UNION {{<<CardTree(P, C, 2), CardTree(P, C, 2)>>, <<CardTree(P, C, 1), CardTree(P, C, 2), CardTree(P, C, 1)>>}
+                : C \in FirstK({c \in DOMAIN Sub(P) : Sub(P)[c][2] = 1}, 1)} : P \in FirstK({p \in ParentIds : DOMAIN Sub(p) # {}}, k)}
 =============================================================================
